@@ -1,124 +1,316 @@
-import random, hashlib, struct
+"""Funding/spending transaction pairs for every supported output type, signed by the independent signer (vf.ref.secp over
+vf.ref.tx digests), plus single corruptions. `rnd` is a random.Random-like object supplied by Hypothesis (st.randoms), so
+every choice is a library draw."""
 from ..ref import script as R, secp, tx as reftx, verify as V
 from ..ref.script import F
-def h160(b): return R.ripemd(R.sha256(b))
-def P(d): return R.push_enc(d)
-def num(n): 
-    if n == 0: return b'\x00'
-    if 1 <= n <= 16: return bytes([0x50 + n])
+
+
+def h160(b):
+    return R.ripemd(R.sha256(b))
+
+
+def P(d):
+    return R.push_enc(d)
+
+
+def num(n):
+    if n == 0:
+        return b'\x00'
+    if 1 <= n <= 16:
+        return bytes([0x50 + n])
     return P(R.num_enc(n))
+
+
+_KEYCACHE = {}
+
+
 class Key:
     def __init__(s, rnd, compressed=True):
-        s.d = rnd.randrange(1, secp.N); s.pt = secp.gen(s.d); s.pub = secp.ser_pub(s.pt, compressed); s.x = secp.xonly(s.pt)
+        i = rnd.randrange(0, 64)
+        if i not in _KEYCACHE:
+            d = int.from_bytes(R.sha256(b'spend-key-%d' % i), 'big') % secp.N
+            _KEYCACHE[i] = (d, secp.gen(d))
+        s.d, s.pt = _KEYCACHE[i]
+        s.pub = secp.ser_pub(s.pt, compressed)
+        s.x = secp.xonly(s.pt)
+
+
 def mk_funding(rnd, spk, value):
-    t = reftx.Tx(); t.version = rnd.choice([1, 2])
-    t.vin = [dict(txid=rnd.randbytes(32), n=rnd.randrange(4), script=b'\x51', seq=0xffffffff, wit=[])]
-    nout = rnd.randint(1, 3); pos = rnd.randrange(nout)
-    t.vout = [dict(value=rnd.randrange(1, 10**8), spk=b'\x51') for _ in range(nout)]
+    t = reftx.Tx()
+    t.version = rnd.choice([1, 2])
+    t.vin = [dict(txid=bytes(rnd.getrandbits(8) for _ in range(32)), n=rnd.randrange(4), script=b'\x51', seq=0xffffffff, wit=[])]
+    nout = rnd.randint(1, 4)
+    pos = rnd.randrange(nout)
+    t.vout = [dict(value=rnd.randrange(1, 10 ** 8), spk=rnd.choice([b'\x51', b'\x00\x14' + bytes(20), b'\x6a'])) for _ in range(nout)]
     t.vout[pos] = dict(value=value, spk=spk)
     return t, pos
-def mk_spending(rnd, fund, pos, ninputs=None):
-    t = reftx.Tx(); t.version = rnd.choice([1, 2, 2, 2]); t.locktime = rnd.choice([0, 0, 500, 500000001])
-    nin = ninputs or rnd.choice([1, 1, 1, 2, 3]); idx = rnd.randrange(nin)
-    t.vin = [dict(txid=rnd.randbytes(32), n=rnd.randrange(3), script=b'', seq=rnd.choice([0xffffffff, 0xfffffffe, 10]), wit=[]) for _ in range(nin)]
-    t.vin[idx]['txid'] = fund.txid(); t.vin[idx]['n'] = pos
-    t.vout = [dict(value=rnd.randrange(1, 10**7), spk=b'\x00\x14' + rnd.randbytes(20)) for _ in range(rnd.randint(1, 3))]
-    return t, idx
-def ecdsa(k, h, ht=1): return secp.der_sig(*secp.ecdsa_sign(k.d, h)) + bytes([ht])
-TYPES = ['p2pk', 'p2pkh', 'multisig', 'p2sh-multisig', 'p2wpkh', 'p2wsh', 'p2sh-p2wpkh', 'p2sh-p2wsh', 'p2tr-key', 'p2tr-script']
-def build(rnd, typ, ninputs=None):
-    """returns dict(tx, fund, idx, type, meta) valid spend"""
-    value = rnd.randrange(1000, 10**9)
+
+
+def mk_spending(rnd, fund, pos, ninputs=None, same_fund_decoy=False):
+    t = reftx.Tx()
+    t.version = rnd.choice([1, 2, 2, 2])
+    t.locktime = rnd.choice([0, 0, 500, 500000001])
+    nin = ninputs or rnd.choice([1, 1, 1, 2, 3, 4])
+    idx = rnd.randrange(nin)
+    t.vin = [dict(txid=bytes(rnd.getrandbits(8) for _ in range(32)), n=rnd.randrange(3), script=b'', seq=rnd.choice([0xffffffff, 0xfffffffe, 10]), wit=[]) for _ in range(nin)]
+    t.vin[idx]['txid'] = fund.txid()
+    t.vin[idx]['n'] = pos
+    decoy = None
+    if same_fund_decoy and nin >= 2 and len(fund.vout) >= 2:
+        # a second input spending another output of the same funding transaction (exercises --select)
+        j = (idx + 1 + rnd.randrange(nin - 1)) % nin
+        other = [k for k in range(len(fund.vout)) if k != pos]
+        t.vin[j]['txid'] = fund.txid()
+        t.vin[j]['n'] = rnd.choice(other)
+        decoy = j
+    t.vout = [dict(value=rnd.randrange(1, 10 ** 7), spk=b'\x00\x14' + bytes(rnd.getrandbits(8) for _ in range(20))) for _ in range(rnd.randint(1, 3))]
+    return t, idx, decoy
+
+
+def ecdsa(k, h, ht=1):
+    return secp.der_sig(*secp.ecdsa_sign(k.d, h)) + bytes([ht])
+
+
+TYPES = ['p2pk', 'p2pkh', 'multisig', 'p2sh-multisig', 'p2sh-script', 'p2wpkh', 'p2wsh', 'p2wsh-script', 'p2sh-p2wpkh', 'p2sh-p2wsh', 'p2tr-key', 'p2tr-script']
+
+
+def arith_script(rnd):
+    """a keyless script with arguments: <a> <b> on the stack, script checks a+b == c under some branches"""
+    a, b = rnd.randrange(0, 1000), rnd.randrange(0, 1000)
+    body = b'\x93' + num(a + b) + b'\x87'
+    if rnd.random() < 0.5:
+        body = b'\x63' + body + b'\x67\x75\x75\x00\x68'     # IF <check> ELSE 2DROP-ish 0 ENDIF
+        args = [R.num_enc(a), R.num_enc(b), b'\x01']
+    else:
+        args = [R.num_enc(a), R.num_enc(b)]
+    if rnd.random() < 0.3:
+        body = b'\x6b\x6c' + body if False else body
+    return body, args
+
+
+def build(rnd, typ, ninputs=None, same_fund_decoy=False):
+    """returns dict(tx, fund, idx, pos, type, value, spk, spent_all, meta) describing a VALID spend"""
+    value = rnd.randrange(1000, 10 ** 9)
     k = [Key(rnd) for _ in range(3)]
+    if k[0].d == k[1].d:
+        k[1] = Key(rnd)
     ht = rnd.choice([1, 1, 1, 2, 3, 0x81, 0x82, 0x83])
     ms = num(2) + P(k[0].pub) + P(k[1].pub) + P(k[2].pub) + num(3) + b'\xae'
     meta = {}
-    if typ == 'p2pk': spk = P(k[0].pub) + b'\xac'
-    elif typ == 'p2pkh': spk = b'\x76\xa9\x14' + h160(k[0].pub) + b'\x88\xac'
-    elif typ == 'multisig': spk = ms
-    elif typ == 'p2sh-multisig': spk = b'\xa9\x14' + h160(ms) + b'\x87'
-    elif typ == 'p2wpkh': spk = b'\x00\x14' + h160(k[0].pub)
-    elif typ == 'p2wsh': spk = b'\x00\x20' + R.sha256(ms)
-    elif typ == 'p2sh-p2wpkh': redeem = b'\x00\x14' + h160(k[0].pub); spk = b'\xa9\x14' + h160(redeem) + b'\x87'
-    elif typ == 'p2sh-p2wsh': redeem = b'\x00\x20' + R.sha256(ms); spk = b'\xa9\x14' + h160(redeem) + b'\x87'
+    redeem = None
+    ascript, aargs = arith_script(rnd)
+    if typ == 'p2pk':
+        spk = P(k[0].pub) + b'\xac'
+    elif typ == 'p2pkh':
+        spk = b'\x76\xa9\x14' + h160(k[0].pub) + b'\x88\xac'
+    elif typ == 'multisig':
+        spk = ms
+    elif typ == 'p2sh-multisig':
+        spk = b'\xa9\x14' + h160(ms) + b'\x87'
+    elif typ == 'p2sh-script':
+        spk = b'\xa9\x14' + h160(ascript) + b'\x87'
+    elif typ == 'p2wpkh':
+        spk = b'\x00\x14' + h160(k[0].pub)
+    elif typ == 'p2wsh':
+        spk = b'\x00\x20' + R.sha256(ms)
+    elif typ == 'p2wsh-script':
+        spk = b'\x00\x20' + R.sha256(ascript)
+    elif typ == 'p2sh-p2wpkh':
+        redeem = b'\x00\x14' + h160(k[0].pub)
+        spk = b'\xa9\x14' + h160(redeem) + b'\x87'
+    elif typ == 'p2sh-p2wsh':
+        redeem = b'\x00\x20' + R.sha256(ms)
+        spk = b'\xa9\x14' + h160(redeem) + b'\x87'
     elif typ in ('p2tr-key', 'p2tr-script'):
-        depth = rnd.randint(0, 3)
-        leaf_script = P(k[1].x) + b'\xac'
-        if rnd.random() < 0.3: leaf_script = P(k[1].x) + b'\xad' + b'\x51'
-        if rnd.random() < 0.3: leaf_script = b'\x51\x69\xab' + leaf_script   # OP_1 OP_VERIFY OP_CODESEPARATOR ...
-        leaf = V.tapleaf(0xc0, leaf_script)
-        path = [rnd.randbytes(32) for _ in range(depth)]
+        depth = rnd.choice([0, 0, 1, 2, 3, 5])
+        r = rnd.random()
+        if r < 0.35:
+            leaf_script = P(k[1].x) + b'\xac'
+            meta['leafkind'] = 'checksig'
+        elif r < 0.5:
+            leaf_script = P(k[1].x) + b'\xad' + b'\x51'
+            meta['leafkind'] = 'checksigverify'
+        elif r < 0.7:
+            leaf_script = P(k[1].x) + b'\xac' + P(k[2].x) + b'\xba' + num(2) + b'\x9c'
+            meta['leafkind'] = 'checksigadd'
+        elif r < 0.85:
+            leaf_script = ascript
+            meta['leafkind'] = 'keyless'
+        else:
+            leaf_script = b'\x51\x69\xab' + P(k[1].x) + b'\xac'    # OP_1 OP_VERIFY OP_CODESEPARATOR <key> OP_CHECKSIG
+            meta['leafkind'] = 'codesep'
+        leafver = 0xc0
+        if typ == 'p2tr-script' and rnd.random() < 0.06:
+            leafver = rnd.choice([0xc2, 0x50 & 0xfe, 0xfe])
+            meta['leafkind'] = 'unknown-leaf-version'
+        leaf = V.tapleaf(leafver, leaf_script)
+        path = [bytes(rnd.getrandbits(8) for _ in range(32)) for _ in range(depth)]
         root = leaf
-        for n_ in path: root = secp.tagged('TapBranch', root + n_ if root < n_ else n_ + root)
+        for n_ in path:
+            root = secp.tagged('TapBranch', root + n_ if root < n_ else n_ + root)
         q, par = secp.taproot_tweak_pub(k[0].x, root)
         spk = b'\x51\x20' + q
-        meta.update(leaf_script=leaf_script, leaf=leaf, path=path, root=root, par=par)
+        meta.update(leaf_script=leaf_script, leaf=leaf, path=path, root=root, par=par, leafver=leafver)
+    else:
+        raise ValueError(typ)
     fund, pos = mk_funding(rnd, spk, value)
-    if typ.startswith('p2tr'): ninputs = ninputs or 1
-    tx, idx = mk_spending(rnd, fund, pos, ninputs)
+    tx, idx, decoy = mk_spending(rnd, fund, pos, ninputs, same_fund_decoy)
     vin = tx.vin[idx]
-    spent_all = [dict(value=value, spk=spk) if i == idx else dict(value=rnd.randrange(1, 10**8), spk=b'\x51') for i in range(len(tx.vin))]
-    if typ == 'p2pk': vin['script'] = P(ecdsa(k[0], reftx.sighash_legacy(tx, idx, spk, ht), ht))
-    elif typ == 'p2pkh': vin['script'] = P(ecdsa(k[0], reftx.sighash_legacy(tx, idx, spk, ht), ht)) + P(k[0].pub)
+    spent_all = [dict(value=value, spk=spk) if i == idx else dict(value=rnd.randrange(1, 10 ** 8), spk=b'\x51') for i in range(len(tx.vin))]
+    if decoy is not None:
+        spent_all[decoy] = dict(fund.vout[tx.vin[decoy]['n']])
+    if typ == 'p2pk':
+        vin['script'] = P(ecdsa(k[0], reftx.sighash_legacy(tx, idx, spk, ht), ht))
+    elif typ == 'p2pkh':
+        vin['script'] = P(ecdsa(k[0], reftx.sighash_legacy(tx, idx, spk, ht), ht)) + P(k[0].pub)
     elif typ == 'multisig':
-        h = reftx.sighash_legacy(tx, idx, spk, ht); vin['script'] = b'\x00' + P(ecdsa(k[0], h, ht)) + P(ecdsa(k[2], h, ht))
+        h = reftx.sighash_legacy(tx, idx, spk, ht)
+        vin['script'] = b'\x00' + P(ecdsa(k[0], h, ht)) + P(ecdsa(k[2], h, ht))
     elif typ == 'p2sh-multisig':
-        h = reftx.sighash_legacy(tx, idx, ms, ht); vin['script'] = b'\x00' + P(ecdsa(k[1], h, ht)) + P(ecdsa(k[2], h, ht)) + P(ms)
+        h = reftx.sighash_legacy(tx, idx, ms, ht)
+        vin['script'] = b'\x00' + P(ecdsa(k[1], h, ht)) + P(ecdsa(k[2], h, ht)) + P(ms)
+    elif typ == 'p2sh-script':
+        vin['script'] = b''.join(num_push(a) for a in aargs) + P(ascript)
     elif typ in ('p2wpkh', 'p2sh-p2wpkh'):
         sc = b'\x76\xa9\x14' + h160(k[0].pub) + b'\x88\xac'
         vin['wit'] = [ecdsa(k[0], reftx.sighash_v0(tx, idx, sc, value, ht), ht), k[0].pub]
-        if typ.startswith('p2sh'): vin['script'] = P(redeem)
+        if typ.startswith('p2sh'):
+            vin['script'] = P(redeem)
     elif typ in ('p2wsh', 'p2sh-p2wsh'):
-        h = reftx.sighash_v0(tx, idx, ms, value, ht); vin['wit'] = [b'', ecdsa(k[0], h, ht), ecdsa(k[1], h, ht), ms]
-        if typ.startswith('p2sh'): vin['script'] = P(redeem)
+        h = reftx.sighash_v0(tx, idx, ms, value, ht)
+        vin['wit'] = [b'', ecdsa(k[0], h, ht), ecdsa(k[1], h, ht), ms]
+        if typ.startswith('p2sh'):
+            vin['script'] = P(redeem)
+    elif typ == 'p2wsh-script':
+        vin['wit'] = list(aargs) + [ascript]
     elif typ == 'p2tr-key':
-        sht = rnd.choice([0, 0, 1, 2, 3, 0x81, 0x83]); annex = (b'\x50' + rnd.randbytes(rnd.randint(0, 5))) if rnd.random() < 0.25 else None
+        sht = rnd.choice([0, 0, 1, 2, 3, 0x81, 0x83])
+        annex = (b'\x50' + bytes(rnd.getrandbits(8) for _ in range(rnd.randint(0, 5)))) if rnd.random() < 0.25 else None
         d = secp.taproot_tweak_sec(k[0].d, meta['root'])
         h = reftx.sighash_taproot(tx, idx, spent_all, sht, annex, None)
-        if h is None: sht = 0; h = reftx.sighash_taproot(tx, idx, spent_all, sht, annex, None)
+        if h is None:
+            sht = 0
+            h = reftx.sighash_taproot(tx, idx, spent_all, sht, annex, None)
         sig = secp.schnorr_sign(d, h) + (bytes([sht]) if sht else b'')
         vin['wit'] = [sig] + ([annex] if annex else [])
         meta.update(annex=annex)
     elif typ == 'p2tr-script':
-        sht = rnd.choice([0, 0, 1, 2, 3, 0x81, 0x83]); annex = (b'\x50' + rnd.randbytes(rnd.randint(0, 5))) if rnd.random() < 0.25 else None
+        sht = rnd.choice([0, 0, 1, 2, 3, 0x81, 0x83])
+        annex = (b'\x50' + bytes(rnd.getrandbits(8) for _ in range(rnd.randint(0, 5)))) if rnd.random() < 0.25 else None
         ls = meta['leaf_script']
         csp = 0xffffffff
-        ops = R.decode(ls)
-        for n_, e in enumerate(ops):
-            if e[0] == 0xab: csp = n_
-        h = reftx.sighash_taproot(tx, idx, spent_all, sht, annex, meta['leaf'], csp)
-        if h is None: sht = 0; h = reftx.sighash_taproot(tx, idx, spent_all, sht, annex, meta['leaf'], csp)
-        sig = secp.schnorr_sign(k[1].d, h) + (bytes([sht]) if sht else b'')
-        control = bytes([0xc0 | meta['par']]) + k[0].x + b''.join(meta['path'])
-        vin['wit'] = [sig, ls, control] + ([annex] if annex else [])
+        for n_, e in enumerate(R.decode(ls)):
+            if e[0] == 0xab:
+                csp = n_
+
+        def ssig(key):
+            hh = reftx.sighash_taproot(tx, idx, spent_all, sht, annex, meta['leaf'], csp)
+            if hh is None:
+                hh = reftx.sighash_taproot(tx, idx, spent_all, 0, annex, meta['leaf'], csp)
+                return secp.schnorr_sign(key.d, hh)
+            return secp.schnorr_sign(key.d, hh) + (bytes([sht]) if sht else b'')
+        control = bytes([meta['leafver'] | meta['par']]) + k[0].x + b''.join(meta['path'])
+        lk = meta['leafkind']
+        if lk in ('checksig', 'checksigverify', 'codesep'):
+            args = [ssig(k[1])]
+        elif lk == 'checksigadd':
+            args = [ssig(k[2]), ssig(k[1])]
+        elif lk == 'keyless':
+            args = list(aargs)
+        else:
+            args = [b'\x01']
+        vin['wit'] = args + [ls, control] + ([annex] if annex else [])
         meta.update(annex=annex, csp=csp)
-    return dict(tx=tx, fund=fund, idx=idx, pos=pos, type=typ, value=value, spk=spk, spent_all=spent_all, meta=meta, keys=k)
+    return dict(tx=tx, fund=fund, idx=idx, pos=pos, type=typ, value=value, spk=spk, spent_all=spent_all, meta=meta, keys=k, decoy=decoy)
+
+
+def num_push(b):
+    """minimal push of a script-number encoding"""
+    if len(b) == 0:
+        return b'\x00'
+    if len(b) == 1 and 1 <= b[0] <= 16:
+        return bytes([0x50 + b[0]])
+    if b == b'\x81':
+        return b'\x4f'
+    return P(b)
+
+
 def flip(b, rnd):
-    if not b: return b'\x01'
-    i = rnd.randrange(len(b)); return b[:i] + bytes([b[i] ^ (1 << rnd.randrange(8))]) + b[i+1:]
-CORR = ['none', 'sigbit', 'amount', 'output', 'sequence', 'locktime', 'drop_wit', 'extra_wit', 'empty_wit', 'proghash', 'control', 'select_bad']
+    if not b:
+        return b'\x01'
+    i = rnd.randrange(len(b))
+    return b[:i] + bytes([b[i] ^ (1 << rnd.randrange(8))]) + b[i + 1:]
+
+
+CORR = ['none', 'none', 'none', 'sigbit', 'amount', 'output', 'sequence', 'locktime', 'drop_wit', 'extra_wit', 'empty_wit', 'proghash', 'control', 'wrong_key', 'scriptsig_junk', 'witscript_bit']
+
+
+def fix_txid(c):
+    c['tx'].vin[c['idx']]['txid'] = c['fund'].txid()
+    if c.get('decoy') is not None:
+        c['tx'].vin[c['decoy']]['txid'] = c['fund'].txid()
+
+
 def corrupt(c, kind, rnd):
-    tx, fund, idx = c['tx'], c['fund'], c['idx']; vin = tx.vin[idx]
+    """apply one corruption in place; returns the kind actually applied"""
+    tx, fund, idx = c['tx'], c['fund'], c['idx']
+    vin = tx.vin[idx]
+    typ = c['type']
     if kind == 'sigbit':
         if vin['wit']:
-            j = 0 if len(vin['wit'][0]) > 0 else 1; vin['wit'][j] = flip(vin['wit'][j][:-1], rnd) + vin['wit'][j][-1:]
+            cands = [j for j, w in enumerate(vin['wit']) if len(w) >= 64 and (w[0] == 0x30 or len(w) in (64, 65))]
+            if not cands:
+                return 'none'
+            j = rnd.choice(cands)
+            w = vin['wit'][j]
+            vin['wit'][j] = flip(w[:-1], rnd) + w[-1:]
         else:
-            ops = R.decode(vin['script']); 
-            # flip a bit inside first non-empty push (the signature)
-            for e in ops:
-                if e[1]:
-                    start = e[2] - len(e[1]); pos = start + 6 + rnd.randrange(20)
-                    s = bytearray(vin['script']); s[pos] ^= 1 << rnd.randrange(8); vin['script'] = bytes(s); break
-    elif kind == 'amount': fund.vout[c['pos']]['value'] += 1; fix_txid(c)
-    elif kind == 'output': tx.vout[0]['value'] += 1
-    elif kind == 'sequence': vin['seq'] ^= 1
-    elif kind == 'locktime': tx.locktime ^= 1
-    elif kind == 'drop_wit' and vin['wit']: vin['wit'] = vin['wit'][1:]
-    elif kind == 'extra_wit' and vin['wit']: vin['wit'] = [b'\x01'] + vin['wit']
-    elif kind == 'empty_wit' and vin['wit']: vin['wit'] = []
-    elif kind == 'proghash':
-        s = bytearray(fund.vout[c['pos']]['spk']); s[-3] ^= 1; fund.vout[c['pos']]['spk'] = bytes(s); fix_txid(c)
-    elif kind == 'control' and c['type'] == 'p2tr-script':
-        j = 2; vin['wit'][j] = flip(vin['wit'][j], rnd)
-    return c
-def fix_txid(c): c['tx'].vin[c['idx']]['txid'] = c['fund'].txid()
+            ops = R.decode(vin['script'])
+            cands = [e for e in ops if e is not None and e[1] and len(e[1]) >= 60 and e[1][0] == 0x30]
+            if not cands:
+                return 'none'
+            e = rnd.choice(cands)
+            start = e[2] - len(e[1])
+            pos = start + 4 + rnd.randrange(len(e[1]) - 6)
+            s = bytearray(vin['script'])
+            s[pos] ^= 1 << rnd.randrange(8)
+            vin['script'] = bytes(s)
+    elif kind == 'amount':
+        fund.vout[c['pos']]['value'] += 1
+        fix_txid(c)
+    elif kind == 'output':
+        tx.vout[0]['value'] += 1
+    elif kind == 'sequence':
+        vin['seq'] ^= 1
+    elif kind == 'locktime':
+        tx.locktime ^= 1
+    elif kind == 'drop_wit' and vin['wit']:
+        vin['wit'] = vin['wit'][1:]
+    elif kind == 'extra_wit' and vin['wit']:
+        vin['wit'] = [b'\x01'] + vin['wit']
+    elif kind == 'empty_wit' and vin['wit']:
+        vin['wit'] = []
+    elif kind == 'proghash' and typ not in ('p2pk', 'multisig'):
+        s = bytearray(fund.vout[c['pos']]['spk'])
+        s[-3] ^= 1
+        fund.vout[c['pos']]['spk'] = bytes(s)
+        fix_txid(c)
+    elif kind == 'control' and typ == 'p2tr-script':
+        j = len(vin['wit']) - (2 if c['meta'].get('annex') else 1)
+        vin['wit'][j] = flip(vin['wit'][j], rnd)
+    elif kind == 'wrong_key' and typ in ('p2pkh', 'p2wpkh', 'p2sh-p2wpkh'):
+        other = Key(rnd)
+        if other.pub == c['keys'][0].pub:
+            return 'none'
+        if vin['wit']:
+            vin['wit'][1] = other.pub
+        else:
+            ops = R.decode(vin['script'])
+            vin['script'] = P(ops[0][1]) + P(other.pub)
+    elif kind == 'scriptsig_junk' and typ in ('p2wpkh', 'p2wsh', 'p2wsh-script', 'p2tr-key', 'p2tr-script'):
+        vin['script'] = b'\x51'
+    elif kind == 'witscript_bit' and typ in ('p2wsh', 'p2wsh-script', 'p2sh-p2wsh'):
+        vin['wit'][-1] = flip(vin['wit'][-1], rnd)
+    else:
+        return 'none'
+    return kind
